@@ -81,6 +81,17 @@ def main() -> None:
         cfg = Cfg(max_depth=2 if small else 3, max_block=2 if small else 4, max_routines=2 if small else 3,
                   small_alphabet=r.random() < 0.3)
         progs.append((f"random:{run.seed}:{i}", Gen(r, cfg).program()))
+    # directed: jumps, calls and loop / case control as the statement of a with-block (the context op stands in front of
+    # the Jump / Call op); inside macros the labels are private and return leaves the expansion
+    directed = [
+        "def 0 {\n    @top;\n    a();\n    with (actor 1) {\n        jump @skip;\n    }\n    b();\n    @skip;\n    c();\n    with (object 2) {\n        call @top;\n    }\n    d();\n    end;\n}\n",
+        "def 0 {\n    switch ($V) {\n        case 1:\n            with (actor 1) {\n                break;\n            }\n            a();\n            break;\n        case 2:\n            b();\n    }\n    c();\n    end;\n}\n",
+        "def 0 {\n    forever {\n        a();\n        if (debug) {\n            with (object 2) {\n                continue;\n            }\n        }\n        with (performer 3) {\n            break_loop;\n        }\n        b();\n    }\n    c();\n    end;\n}\n",
+        "def 0 {\n    with (actor 1) {\n        return;\n    }\n    b();\n    end;\n}\n",
+    ]
+    for el in run_impl([("lang:parse_and_elab", t) for t in directed]):
+        if el.get("ok"):
+            progs.append((f"directed:with-ctrl:{len(progs)}", el["ast"]))
     texts = [print_prog(p) for _, p in progs]
     results = run_impl([("compile", t) for t in texts])
     elabs = run_impl([("lang:parse_and_elab", t) for t in texts])
